@@ -1,9 +1,83 @@
 import PyamgV.Driver.Util
-
+import PyamgV.Model.ExtC14YEvol
+/-! Driver ops of extension task E44 (property C14; op names prefixed `ext_c14y_`): the whole of
+`evolution_strength_of_connection` for several candidate vectors, every `k`, `epsilon = inf`, BSR input and complex input.
+They run the definitions of `Model/ExtC14YEvol.lean` that `Props/C14.lean` (section E44) is about.
+`kind` is `r` (real scalars) or `c` (complex, tokens `re|im`); sections of a reply are separated by `#`; the complex
+modulus is `sqrt` to relative precision `2^-100` (exact on squares). -/
 namespace PyamgV.Drv.ExtE44
+open PyamgV PyamgV.Drv PyamgV.N PyamgV.C14 PyamgV.C14X PyamgV.C14Y
 
-/-- line-protocol ops of extension E44 (filled in by the extension) -/
+def sqD : Rat → Rat := sqrtApprox 100
+
+def showRowsG {α : Type} (shw : Array α → String) (rows : List (RowOf α)) : String :=
+  let (sp, sj, sx) := rowsToOut rows
+  showNats sp ++ ";" ++ showNats sj ++ ";" ++ shw sx
+
+def mkRows {α : Type} [OfNat α 0] (n : Nat) (ap aj : Array Nat) (ax : Array α) : List (RowOf α) :=
+  (List.range n).map fun i =>
+    (List.range' (rdN ap i) (rdN ap (i+1) - rdN ap i)).map fun jj => (rdN aj jj, ax.getD jj 0)
+
+def mkB {α : Type} [OfNat α 0] (n K : Nat) (b : Array α) : DMat α := C19.Mat.unflat n K b
+
+def parseEps (s : String) : Option Rat := if s = "inf" then none else some (parseRat s)
+
+/-- `big tiny eps wk wk8 sqe perf tolz c k symm projDA blockFlag bs` -/
+def mkPar : List String → Option Par
+  | [big, tiny, eps, wk, wk8, sqe, perf, tolz, c, k, symm, proj, bf, bs] =>
+    some ⟨parseRat big, parseRat tiny, parseEps eps, parseRat wk, parseRat wk8, parseRat sqe, parseRat perf, parseRat tolz,
+      parseRat c, nat k, symm = "1", proj = "1", bf = "1", nat bs⟩
+  | _ => none
+
+section run
+variable {α : Type} [Add α] [Sub α] [Mul α] [Div α] [OfNat α 0] [OfNat α 1] [DecidableEq α]
+
+def runFull (S : Scal α) (shw : Array α → String) (P : Par) (bsr : Bool) (B : DMat α) (K : Nat)
+    (rows : List (RowOf α)) (X : Spmm.Bsr α) : String :=
+  let rows := if bsr then scalarRows X else rows
+  match atildeOf S P rows, evMeasureG S P B K rows,
+      (if bsr then evolFullBsr S P B K X else evolFullG S P B K rows) with
+  | some a, some m, some r => showRowsG shw a ++ "#" ++ showRowsG showRats m ++ "#" ++ showRowsG showRats r
+  | _, _, _ => "reject"
+
+def runHelper (S : Scal α) (P : Par) (dA : Array α) (B : DMat α) (K : Nat) (rows : List (RowOf α)) : String :=
+  match allRows ((rows.zipIdx).map fun (p, i) => helperRow S P (fun j => dA.getD j 0) B K i p) with
+  | some m => showRowsG showRats m
+  | none => "reject"
+
+end run
+
 def handle : List String → Option String
+  -- the whole call; `fmt` = `csr` (`rows bs ap aj ax`, `bs = 1`) or `bsr` (`rows bs ap aj data`)
+  | "ext_c14y_evol" :: kind :: fmt :: big :: tiny :: eps :: wk :: wk8 :: sqe :: perf :: tolz :: c :: k :: symm :: proj :: bf
+      :: [K, b, n, bs, ap, aj, ax] =>
+    (mkPar [big, tiny, eps, wk, wk8, sqe, perf, tolz, c, k, symm, proj, bf, bs]).map fun P =>
+      let n := nat n
+      let K := nat K
+      let bsr := fmt = "bsr"
+      if kind = "c" then
+        let ax := parseCRats ax
+        runFull (scalC sqD) showCRats P bsr (mkB n K (parseCRats b)) K (mkRows n (parseNats ap) (parseNats aj) ax)
+          ⟨n, n, P.bs, P.bs, parseNats ap, parseNats aj, ax⟩
+      else
+        let ax := parseRats ax
+        runFull scalQ showRats P bsr (mkB n K (parseRats b)) K (mkRows n (parseNats ap) (parseNats aj) ax)
+          ⟨n, n, P.bs, P.bs, parseNats ap, parseNats aj, ax⟩
+  -- the kernel `evolution_strength_helper` alone on given rows of `Atilde`; `dA` = the diagonal of `D_A`
+  | ["ext_c14y_helper", kind, wk8, sqe, perf, tolz, K, dA, b, n, ap, aj, ax] =>
+    let P : Par := ⟨0, 0, none, 0, parseRat wk8, parseRat sqe, parseRat perf, parseRat tolz, 0, 1, false, false, false, 1⟩
+    let n := nat n
+    let K := nat K
+    some <| if kind = "c" then
+      runHelper (scalC sqD) P (parseCRats dA) (mkB n K (parseCRats b)) K (mkRows n (parseNats ap) (parseNats aj) (parseCRats ax))
+    else
+      runHelper scalQ P (parseRats dA) (mkB n K (parseRats b)) K (mkRows n (parseNats ap) (parseNats aj) (parseRats ax))
+  -- everything after the strength values, on given measure rows
+  | ["ext_c14y_tail", fmt, big, tiny, eps, symm, bs, n, ap, aj, ax] =>
+    let rows : List Row := mkRows (nat n) (parseNats ap) (parseNats aj) (parseRats ax)
+    some <| showRowsG showRats <|
+      if fmt = "bsr" then tailBsr (parseRat big) (parseRat tiny) (parseEps eps) (symm = "1") (nat bs) rows
+      else tailO (parseRat big) (parseRat tiny) (parseEps eps) (symm = "1") rows
   | _ => none
 
 end PyamgV.Drv.ExtE44
